@@ -457,7 +457,15 @@ def gen_stream(rng, ordered=None):
         if rng.random() < 0.08:
             out += rng.choice([" ", "  ", "\t", " \t"])
         out += rec
+    if rng.random() < 0.06:
+        # a bare record name as the very last thing of the file: a record without any content (no option, blank or line break)
+        if out and not out.endswith("\n"):
+            out += "\n"
+        out += "$" + rng.choice(BARE_LAST)
     return out
+
+
+BARE_LAST = ["COVARIANCE", "COV", "cov", "ESTIMATION", "EST", "est", "TABLE", "SIMULATION", "SIM", "Cova"]
 
 
 # ------------------------------------------------------------------ lexical mutation
@@ -740,6 +748,8 @@ def gen_model(rng):
                          "$TABLE ID TIME IPRED=CIPRED NOPRINT ONEHEADER FILE=run1.tab RFORMAT=\"(1PE16.9,300(1PE24.16))\"\n"])
     if rng.random() < 0.1:
         s = s.rstrip("\n")     # no final newline
+        if rng.random() < 0.4:
+            s += "\n$" + rng.choice(["COVARIANCE", "COV", "cov", "TABLE"])     # bare record name at the end of the file
     return s
 
 
